@@ -21,9 +21,11 @@ ASSUMPTIONS = ["migen tracer shim (names only; register names are given explicit
                "we and re are never asserted together (no bridge does)",
                "CSRStorage.re is the strobe of the write to the register's last address, one cycle later (docstring: 'after or during')"]
 FLOORS = {"quick": {"bus_writes_hit": 20000, "bus_reads_hit": 20000, "cycles_compared": 100000, "registers": 1000,
-                    "atomic_commits": 300, "pulse_fields_seen": 200, "mem_accesses": 3000},
+                    "atomic_commits": 300, "pulse_fields_seen": 200, "mem_accesses": 3000,
+                    "device_update_coinciding_with_bus_write": 800},
           "thorough": {"bus_writes_hit": 400000, "bus_reads_hit": 400000, "cycles_compared": 2000000, "registers": 25000,
-                       "atomic_commits": 6000, "pulse_fields_seen": 4000, "mem_accesses": 60000}}
+                       "atomic_commits": 6000, "pulse_fields_seen": 4000, "mem_accesses": 60000,
+                       "device_update_coinciding_with_bus_write": 16000}}
 SHARD_TIMEOUT = {"quick": 900, "thorough": 3000}
 N_SAMPLES = 3
 
@@ -240,7 +242,7 @@ def run_case(case):
         def __init__(self):
             self.c = 0
             self.exp = None
-            self.stats = {"wh": 0, "rh": 0, "cmp": 0, "atomic": 0, "pulse": 0, "mem": 0}
+            self.stats = {"wh": 0, "rh": 0, "cmp": 0, "atomic": 0, "pulse": 0, "mem": 0, "wfd_coinc": 0}
             self.sigs = [master.adr, master.we, master.re, master.dat_w, master.dat_r]
             self.regsigs = []
             for pi, bm in bank_models.items():
@@ -439,7 +441,11 @@ def run_case(case):
                     elif r["kind"] == "storage" and r["wfd"]:
                         bus_hits_me = (w[master.we] and bm.page is not None and w[master.adr] // ap == bm.page
                                        and r["_first"] <= w[master.adr] % ap <= r["_last"])
-                        fire = rng.random() < 0.1 and not bus_hits_me
+                        # a device update may coincide with a bus write of the same register: the bus write still changes the
+                        # addressed bits (the statement is unconditional), the device update the others
+                        fire = rng.random() < (0.5 if bus_hits_me else 0.1)
+                        if fire and bus_hits_me:
+                            st["wfd_coinc"] += 1
                         w[o.we] = int(fire)
                         w[o.dat_w] = rng.getrandbits(r["size"])
             return w
@@ -467,6 +473,7 @@ def run_shard(shard):
             continue
         st = r["stats"]
         col.ev("bus_writes_hit", st["wh"])
+        col.ev("device_update_coinciding_with_bus_write", st["wfd_coinc"])
         col.ev("bus_reads_hit", st["rh"])
         col.ev("cycles_compared", st["cmp"])
         col.ev("atomic_commits", st["atomic"])
